@@ -510,6 +510,13 @@ func main() {
 	var bl, dl []string
 	for ms := int32(0); ms <= 40; ms++ {
 		bl = append(bl, fmt.Sprintf("(%d, %d)", ms, tso.CalSuffixBits(ms)))
+		// the width calculated for a largest suffix holds that suffix (and every smaller one)
+		if b := tso.CalSuffixBits(ms); b < 0 || b > 62 || int64(ms) >= int64(1)<<uint(b) {
+			R.Violate("C05:suffix-does-not-fit-the-width-calculated-for-it",
+				fmt.Sprintf("CalSuffixBits(%d) = %d: the suffix %d does not fit into %d bits, so it spills into the raw logical part of a timestamp", ms, b, ms, b),
+				map[string]interface{}{"max_suffix": ms, "bits": b})
+			break
+		}
 	}
 	for _, ms := range []int32{63, 64, 65, 127, 128, 255, 256, 1023, 1024, 65535, 65536, 1<<20 - 1, 1 << 20, 1<<30 - 1, 1 << 30, 1<<31 - 2} {
 		bl = append(bl, fmt.Sprintf("(%d, %d)", ms, tso.CalSuffixBits(ms)))
